@@ -37,6 +37,11 @@ pub struct Bus {
     /// await_irq positions (0-based count of await_irq calls) at which the future stays pending forever
     pub pending_irq_at: Option<usize>,
     pub irq_calls: usize,
+    /// how many more interrupt edges the chip raises; when used up await_irq never completes (the caller's future is dropped)
+    pub irq_budget: usize,
+    /// interrupt outcomes: at each completed await_irq the next entry becomes the chip's IRQ status
+    /// (sx127x: RegIrqFlags; sx126x: the two bytes GetIrqStatus answers next, after a zero status byte)
+    pub on_irq: VecDeque<(u16, Vec<u8>)>,
 }
 
 impl Bus {
@@ -53,11 +58,16 @@ impl Bus {
             fault_at: None,
             pending_irq_at: None,
             irq_calls: 0,
+            irq_budget: 6,
+            on_irq: VecDeque::new(),
         }))
     }
     fn tick(&mut self) -> bool {
         let n = self.events;
         self.events += 1;
+        if self.trace.len() > 4000 {
+            std::panic::panic_any("EVENT-BUDGET");
+        }
         self.fault_at == Some(n)
     }
     fn next_read(&mut self) -> u8 {
@@ -155,7 +165,10 @@ impl SpiDevice<u8> for Spi {
                     if a == 0x0d {
                         b.fifo_ptr = written[1];
                     }
-                    if a != 0 {
+                    if a == 0x12 {
+                        // RegIrqFlags: writing a 1 clears the flag
+                        b.regs[0x12] &= !written[1];
+                    } else if a != 0 {
                         for (i, v) in written[1..].iter().enumerate() {
                             b.regs[a + i] = *v;
                         }
@@ -200,11 +213,28 @@ impl InterfaceVariant for Iv {
             let mut b = self.0.borrow_mut();
             let n = b.irq_calls;
             b.irq_calls += 1;
-            b.pending_irq_at == Some(n)
+            let exhausted = b.irq_budget == 0;
+            if !exhausted {
+                b.irq_budget -= 1;
+            }
+            b.pending_irq_at == Some(n) || exhausted
         };
         if pend {
             self.0.borrow_mut().trace.push("IRQ-PENDING".into());
             PendingForever.await;
+        }
+        {
+            let mut b = self.0.borrow_mut();
+            if let Some((v, extra)) = b.on_irq.pop_front() {
+                match b.kind {
+                    ChipKind::Sx127x => b.regs[0x12] = v as u8,
+                    _ => {
+                        b.reads.clear();
+                        b.reads.extend([0u8, (v >> 8) as u8, v as u8]);
+                        b.reads.extend(extra);
+                    }
+                }
+            }
         }
         self.call("IRQ")
     }
